@@ -121,6 +121,10 @@ class Oracle:
                 if i < 0: i += n
                 if not (0 <= i < n): i = None
             return items[i].v if i is not None else rc(NULL())
+        if k == 'Function':
+            if f('name').concrete() != 'type' or len(f('args').items) != 1: raise Unsupported('oracle: function other than type/1')
+            t = type_of(ex, s.eval(ex, f('args').items[0].v, data))
+            return rc(mk_enum('Variable', 'String', [rstr({'Null': 'null', 'Bool': 'boolean', 'String': 'string', 'Number': 'number', 'Array': 'array', 'Object': 'object', 'Expref': 'expref'}[t])]))
         if k == 'Subexpr': return s.eval(ex, f('rhs'), s.eval(ex, f('lhs'), data))
         if k == 'Or':
             l = s.eval(ex, f('lhs'), data)
